@@ -28,6 +28,13 @@ answer has reached the proxy, so the response (its limit check, its switch to st
 request is still open.  The oracle is unchanged: limit and streaming are decided by the RESPONSE's own size; a response that must be
 refused is judged alone (the upload is legitimately cut short).
 
+Back-pressure leg (3 % of the cases + the first two cases of every worker, run_bp_case, vf/c07_backpressure.py): the REAL
+ConnectionHandler (handle_connection / drain_writers / open_connection) with real HTTP layers over in-memory sockets whose drain()
+blocks above a high-water mark; large streamed upload and download, consumers stalled in every combination (origin, client, both;
+either direction first; HTTP/1 early-answering origin or HTTP/2 client with upload and download on two streams).
+  bp.bound   bytes mitmproxy took from a source minus bytes its sink consumed <= high-water mark + 2 socket reads + 4 KiB, whatever the body size
+  bp.exact   after all peers resume, both bodies arrive complete and in order
+
 HTTP/2 legs (30 % of the cases, run_h2_case): a streamed response towards an HTTP/2 client, or a streamed request towards an
 HTTP/2 origin (vf/peers_c07_h2.py, h2 library), where the HTTP/2 peer announces a tiny SETTINGS_INITIAL_WINDOW_SIZE (1 .. 5000)
 and re-opens its stream window in random increments of 1..k bytes (k in 1..400, one WINDOW_UPDATE per segment) while the
@@ -47,12 +54,12 @@ from vf.ref import http1 as ref
 PROPERTY = "C07"
 LEVEL = "exploration"
 ENGINE = "sansio"
-BUDGET = {"quick": (800, 19), "thorough": (80000, 230)}
+BUDGET = {"quick": (700, 17), "thorough": (80000, 230)}
 WORKERS = {"quick": 4, "thorough": 16}
 REQUIRED = [
     "limit.error", "limit.client", "limit.not_forwarded", "limit.exact", "m3.bound", "m3.streaming",
     "stream.engaged", "stream.input", "stream.exact", "stream.stored", "relay.buffered", "dir.request.abort", "dir.response.abort",
-    "dir.request.stream", "dir.response.stream", "early.response_head_before_request_end", "early.response_abort", "stream.exact.h2", "h2.backpressure_cases.h2-client", "h2.backpressure_cases.h2-server",
+    "dir.request.stream", "dir.response.stream", "bp.bound", "bp.exact", "bp.both_stalled.h1", "bp.both_stalled.h2", "early.response_head_before_request_end", "early.response_abort", "stream.exact.h2", "h2.backpressure_cases.h2-client", "h2.backpressure_cases.h2-server",
 ]
 TECHNIQUE = "runtime monitoring: sans-io exploration with a per-step buffer-length hook on the live layer graph + independent wire reader and threshold model"
 RULE = (
@@ -70,6 +77,7 @@ ASSUMPTIONS = [
     "'one received chunk' is bounded by the largest TCP segment delivered so far on that connection",
     "after an interim '100 Continue' was relayed a bare connection close counts as the client's error (DESIGN 3.4)",
     "HTTP/1 in both directions for the limit clauses; HTTP/2 on one side for the streaming clauses (no limit set there); plain http (no CONNECT/TLS)",
+    "back-pressure leg: the HTTP/2 client announces 2^31-1 flow-control windows, so only the socket-level back-pressure (drain_writers) is under test; 'one received chunk' = one 65535-byte socket read",
     "HTTP/2 legs run with http2_ping_keepalive=0 (the driver completes wakeups at once)",
 ]
 LEVEL_TEXT = (
@@ -832,6 +840,64 @@ def run_h2_case(ctx, opts):
     return sig, bool(streamed_expected and backpressure), sample
 
 
+# ---------------------------------------------------------------------------------------------------------------
+# back-pressure leg: real ConnectionHandler over in-memory sockets with blocking drain() (vf/c07_backpressure.py)
+# ---------------------------------------------------------------------------------------------------------------
+
+def run_bp_case(ctx, opts, force=None):
+    from vf import c07_backpressure as bp
+
+    r = ctx.rng
+    p = bp.gen_params(r)
+    if force:
+        p.update(force)
+    if p["proto"] == "h2":
+        p["req_framing"] = "cl"
+    opts.update(body_size_limit=None, stream_large_bodies=None if p["by_addon"] else "1", store_streamed_bodies=p["store"], http2_ping_keepalive=0)
+    res = bp.run_case(p, opts)
+    B = bp.bound(p)
+    req_len, resp_len = p["n_req"] * p["chunk"], p["n_resp"] * p["chunk"]
+
+    def wit(**kw):
+        w = {"leg": "backpressure", "params": p, "bound": B, "request_body": req_len, "response_body": resp_len, "measure": res.get("measure"), "max_buffered": res.get("max_buffered"),
+             "taken": res.get("taken"), "hooks": res.get("hooks", [])[:12], "problems": res.get("problems")}
+        w.update(kw)
+        return w
+
+    ctx.count("bp.cases")
+    ctx.count("bp.cases." + p["proto"])
+    if res["problems"]:
+        ctx.count("inconclusive_cases")
+        ctx.seen("bp_problems", res["problems"][0])
+        return ("bp", "inconclusive"), False, None
+    # relayed without buffering: what mitmproxy holds is bounded independently of the body size
+    ctx.count("bp.bound")
+    worst = max(res["measure"], key=lambda m_: m_[2])
+    if worst[2] > B:
+        ctx.violation("bp.bound", wit(problem=f"mitmproxy holds {worst[2]} bytes of a streamed body ({worst[1]}, {worst[0]}) while the consumer is not reading; bound {B}", phase=worst[0], direction=worst[1], held=worst[2]))
+    elif max(res["max_buffered"].values()) > B:
+        ctx.violation("bp.bound", wit(problem="write buffer towards a stalled peer exceeded the bound", held=max(res["max_buffered"].values())))
+    # ... and exactly
+    ctx.count("bp.exact")
+    ctx.count("stream.exact")
+    st, msgs, rest = ref.parse_requests(res["upstream_raw"])
+    if st != "ok" or rest or len(msgs) != 1 or msgs[0]["body"] != res["req_body"]:
+        ctx.violation("stream.exact", wit(problem="origin did not receive exactly the uploaded body after it resumed reading", status=st, got_len=len(msgs[0]["body"]) if msgs else None))
+    if p["proto"] == "h1":
+        st, msgs, rest = ref.parse_responses(res["client_raw"], ["POST"], eof=True)
+        if st != "ok" or rest or len(msgs) != 1 or msgs[0]["body"] != res["resp_body"]:
+            ctx.violation("stream.exact", wit(problem="client did not receive exactly the response body after it resumed reading", status=st, got_len=len(msgs[0]["body"]) if msgs else None))
+    elif res["download_body"] != res["resp_body"] or not res["download_ended"]:
+        ctx.violation("stream.exact", wit(problem="h2 client did not receive exactly the response body after it resumed reading", got_len=len(res["download_body"]), ended=res["download_ended"]))
+    both = p["stall"] == "both"
+    if both:
+        ctx.count("bp.both_stalled")
+        ctx.count("bp.both_stalled." + p["proto"])
+    sig = ("bp", p["proto"], p["stall"], p["first"], p["req_framing"], p["resp_framing"], p["chunk"], p["high_water"], p["by_addon"], p["store"])
+    sample = {"leg": "backpressure", "params": p, "bound": B, "held": res["measure"], "max_buffered": res["max_buffered"]}
+    return sig, min(req_len, resp_len) > 4 * B, sample
+
+
 def run(ctx):
     tctx, _ = sansio.addon_context()
     opts = tctx.options
@@ -839,7 +905,12 @@ def run(ctx):
     defaults = {k: getattr(opts, k) for k in keys}
     try:
         for i in ctx.cases():
-            res = ctx.guard(run_h2_case if ctx.rng.random() < 0.3 else run_case, ctx, opts, what="c07 case")
+            x = ctx.rng.random()
+            if i < 2:
+                # every worker starts with the two decisive back-pressure shapes (both consumers stalled, HTTP/1 and HTTP/2)
+                res = ctx.guard(run_bp_case, ctx, opts, {"proto": "h1" if i == 0 else "h2", "stall": "both"}, what="c07 case")
+            else:
+                res = ctx.guard(run_bp_case if x < 0.03 else run_h2_case if x < 0.32 else run_case, ctx, opts, what="c07 case")
             if res is None:
                 ctx.case(("aborted",), False)
                 continue
